@@ -381,7 +381,7 @@ pub fn run(ctx: &mut Ctx) {
     crate::app::pin_clock();
     let quick = ctx.quick();
     let all = bases(!quick);
-    let reduced_stride = if quick { 7 } else { 3 };
+    let reduced_stride = if quick { 2 } else { 1 };
     ctx.extra.insert("bases".into(), json!(all.len()));
     let mut dev_counts = [0u64; 3];
     for (bi, b) in all.iter().enumerate() {
@@ -391,7 +391,7 @@ pub fn run(ctx: &mut Ctx) {
         let bytes = b.bytes();
         // deviation 0
         check_bytes(ctx, &bytes, "none", "well-formed"); dev_counts[0] += 1;
-        // deviation 1: every structural edit, every truncation point  (quick: on every 7th base / thorough: every base)
+        // deviation 1: every structural edit, every truncation point  (quick: on every 2nd base / thorough: every base)
         let dev1 = !quick || bi % reduced_stride == 0 || b.target.len() > 900;
         if dev1 {
             for e in STRUCTURAL { if let Some(v) = apply_structural(b, e) { check_bytes(ctx, &v, e, e); dev_counts[1] += 1; } }
@@ -410,7 +410,7 @@ pub fn run(ctx: &mut Ctx) {
     ctx.extra.insert("sum_dev0".into(), json!(dev_counts[0])); ctx.extra.insert("sum_dev1".into(), json!(dev_counts[1])); ctx.extra.insert("sum_dev2".into(), json!(dev_counts[2]));
     ctx.extra.insert("rule".into(), json!("case = byte string presented as the first read of a fresh connection; deviation 0 = product of menus (methods x targets x ordered header selections x bodies incl. bodies ending exactly at / one past the 1 KiB buffer, and heads ending within one byte of it); deviation 1 = one structural edit (36 kinds) or one truncation point; deviation 2 = pairs; non-trivial = every case (each is classified by the reference parser and compared); collision = the input is malformed/incomplete, or well-formed with headers or a body (the paths on which lookups, joins and payload slicing happen)"));
     ctx.extra.insert("bounds".into(), json!({"methods": if quick { 3 } else { 7 }, "targets": if quick { 7 } else { TARGET_MENU.len() }, "header_menu": HEADER_MENU.len(), "header_lines": if quick { "0..2" } else { "0..3" },
-        "structural_edits": STRUCTURAL.len(), "deviation_completed": if quick { "1 (on every 7th base), 0 on all" } else { "1 on all bases, 2 on every 97th base" }}));
+        "structural_edits": STRUCTURAL.len(), "deviation_completed": if quick { "1 (on every 2nd base), 0 on all" } else { "1 on all bases, 2 on every 97th base" }}));
     ctx.traces_validated = ctx.transitions;
     ctx.sample(|| json!({"input": "GET /a?x=1 HTTP/1.1\\r\\nHost: h.example\\r\\n\\r\\n", "deviation": "none"}));
     ctx.sample(|| json!({"input": "GET /a\\r\\nHost: h.example\\r\\n\\r\\n", "deviation": "no-second-sp"}));
